@@ -1017,6 +1017,9 @@ pub fn corpus() -> Vec<(&'static str, &'static str, Vec<Op>)> {
         ("below_intrinsic_gas_inscription", "c06", vec![t_init(),
             Op::Call { from_pkscript: PKSCRIPTS[1].into(), to: To::ByAddress(Hx::from_hex(CONTROLLER)), data: Hx(cd::sload(u(1))), enc: Enc::Hex, tail: t_tail(TS0 + 1, "c1i0", 1) }, t_fin(TS0 + 1),
             Op::Call { from_pkscript: PKSCRIPTS[1].into(), to: To::ByAddress(Hx::from_hex(CONTROLLER)), data: Hx(cd::sload(u(1))), enc: Enc::Hex, tail: t_tail(TS0 + 2, "c2i0", 2000) }, t_fin(TS0 + 2)]),
+        // a block abandoned by clearCaches after a transaction ran in it: the next (empty) block starts from zero
+        ("clear_mid_block_then_empty_block", "c06", vec![t_init(), Op::Mine { n: 1, ts: TS0 + 1 }, Op::Commit, t_deploy(TS0 + 2, "gasi0"), Op::Clear, Op::Mine { n: 1, ts: TS0 + 3 },
+            t_deploy(TS0 + 4, "gas2i0"), t_deploy(TS0 + 4, "gas3i0"), Op::Clear, t_deploy(TS0 + 5, "gas4i0"), t_fin(TS0 + 5)]),
         // a deployment whose init code reverts
         ("reverted_deploy", "c06", vec![t_init(), Op::Deploy { from_pkscript: PKSCRIPTS[0].into(), data: Hx(init_reverting()), enc: Enc::Hex, tail: t_tail(TS0 + 1, "revi0", 2000) }, t_fin(TS0 + 1)]),
     ]
